@@ -7,13 +7,14 @@ import (
 	"strings"
 
 	"golang.org/x/tools/go/packages"
+	"golang.org/x/tools/go/ssa"
 )
 
 // C32 Route resolution is deterministic and most specific.
 
 func init() {
 	register(&propertyCheck{
-		id: "C32", level: "other", needs: loadNeeds{},
+		id: "C32", level: "other", needs: loadNeeds{ssa: true},
 		decides: "iteration-order independence of route selection: in package router every slice that is filled while ranging over a map is sorted with a total-order comparator (one that compares the route map's whole key: endpoint and method) before any order-sensitive use (indexing, ranging, slicing); in FindRoute the fewest-variables choice compares variable counts with a strict '<'.",
 		misses: "whether a path matches a pattern, and the specificity policy itself beyond the fewest-variables comparison.",
 		run:    runC32,
@@ -21,6 +22,8 @@ func init() {
 }
 
 func runC32(w *World, r *Report) {
+	defer c32MinMaxIndependent(w, r)
+
 	r.Rule("R-C32-1", "order taint: a slice appended to inside `for ... range <map>` must be passed to sort.Slice/SliceStable/Sort (or slices.Sort*) in the same function before its first order-sensitive use; the comparator for route slices must read both endpoint and method", 2)
 	r.Rule("R-C32-2", "in FindRoute the variable-count minimum is selected with a strict '<' and the route returned for 'fewer variables' is the one recorded at that comparison", 1)
 
@@ -365,4 +368,103 @@ func comparatorMentions(call *ast.CallExpr, field string) bool {
 	})
 
 	return found
+}
+
+// c32MinMaxIndependent: R-C32-4.  FindRoute decides whether "fewest variables" is a meaningful
+// choice by comparing the smallest and the largest variable count among the candidates.  Both are
+// tracked in one loop; the two comparisons must be evaluated for every candidate.  If the test
+// against the maximum is only reached when the test against the minimum failed (an else-if), a
+// candidate that sets a new minimum never updates the maximum, the counts look equal, and the
+// most-specific choice is skipped.
+func c32MinMaxIndependent(w *World, r *Report) {
+	r.Rule("R-C32-4", "in FindRoute's variable-count scan the comparison against the running maximum is evaluated on every iteration: its block is reachable, within the iteration, from both edges of the comparison against the running minimum", 1)
+
+	rp := w.pkg("internal/router")
+	if rp == nil {
+		return
+	}
+
+	fn := w.ssaFunc(rp, "Router.FindRoute")
+	if fn == nil {
+		r.Anchor("R-C32-4", "router.Router.FindRoute")
+
+		return
+	}
+
+	isCount := func(v ssa.Value) bool {
+		return derivesFrom(v, func(s ssa.Value) bool {
+			c, ok := s.(*ssa.Call)
+
+			return ok && callID(c.Common()) == "strings.Count"
+		}, nil)
+	}
+
+	n := 0
+
+	for _, li := range naturalLoops(fn) {
+		var lss, gtr *ssa.BasicBlock
+
+		for b := range li.body {
+			ifi, ok := b.Instrs[len(b.Instrs)-1].(*ssa.If)
+			if !ok {
+				continue
+			}
+
+			bo, ok := ifi.Cond.(*ssa.BinOp)
+			if !ok {
+				continue
+			}
+
+			_, xPhi := bo.X.(*ssa.Phi)
+			_, yPhi := bo.Y.(*ssa.Phi)
+
+			switch {
+			case bo.Op == token.LSS && isCount(bo.X) && yPhi, bo.Op == token.GTR && isCount(bo.Y) && xPhi:
+				lss = b
+			case bo.Op == token.GTR && isCount(bo.X) && yPhi, bo.Op == token.LSS && isCount(bo.Y) && xPhi:
+				gtr = b
+			}
+		}
+
+		if lss == nil || gtr == nil {
+			continue
+		}
+
+		n++
+
+		key := "router.Router.FindRoute|maximum tracked independently of the minimum"
+
+		reach := func(from *ssa.BasicBlock) bool {
+			seen := map[*ssa.BasicBlock]bool{from: true}
+			work := []*ssa.BasicBlock{from}
+
+			for len(work) > 0 {
+				b := work[0]
+				work = work[1:]
+
+				if b == gtr {
+					return true
+				}
+
+				for _, sc := range b.Succs {
+					if !seen[sc] && li.body[sc] && sc != li.header {
+						seen[sc] = true
+						work = append(work, sc)
+					}
+				}
+			}
+
+			return false
+		}
+
+		if reach(lss.Succs[0]) && reach(lss.Succs[1]) {
+			r.Discharge("R-C32-4", key, w.pos(gtr.Instrs[len(gtr.Instrs)-1].(*ssa.If).Cond.Pos()), "")
+		} else {
+			r.Violate("R-C32-4", key, w.pos(gtr.Instrs[len(gtr.Instrs)-1].(*ssa.If).Cond.Pos()), "the comparison with the running maximum is skipped for a candidate that sets a new minimum (else-if): with counts in decreasing order the maximum stays at its start value, 'fewest variables' is never chosen, and the first candidate in sort order — the least specific one — is returned")
+		}
+	}
+
+	if n == 0 {
+		r.Anchor("R-C32-4", "the min/max variable-count loop in FindRoute")
+	}
 }
